@@ -30,7 +30,7 @@ REPORT = ['modules', 'evaluations', 'well_typed_accepted', 'kind:wrong_type', 'k
           'kind:missing_member', 'kind:constraint', 'in_addition', 'in_list_element', 'carved_out']
 FLOORS = {'quick': {'evaluations': 40000, 'kind:wrong_type': 10000, 'kind:missing_member': 2000, 'kind:unknown_choice': 1000, 'kind:unknown_enum': 500},
           'thorough': {'evaluations': 160000, 'kind:wrong_type': 40000, 'kind:missing_member': 8000, 'kind:unknown_choice': 4000, 'kind:unknown_enum': 2000}}
-TIMEOUT = {'quick': 1800, 'thorough': 14000}
+TIMEOUT = {'quick': 1800, 'thorough': 5400}
 
 
 def shards(tier):
